@@ -583,9 +583,12 @@ def _type_check_passed_parameters(atomic_type, ir, source_file_name, errors):
             # definition site; no need for another, probably-confusing error at any
             # usage sites.
             continue
-        if (
-            atomic_type.runtime_parameter[i].type.which_type
-            != referenced_type.runtime_parameter[i].type.which_type
+        actual_type = atomic_type.runtime_parameter[i].type
+        expected_type = referenced_type.runtime_parameter[i].type
+        if actual_type.which_type != expected_type.which_type or (
+            expected_type.which_type == "enumeration"
+            and ir_util.hashable_form_of_reference(actual_type.enumeration.name)
+            != ir_util.hashable_form_of_reference(expected_type.enumeration.name)
         ):
             errors.append(
                 [
